@@ -113,7 +113,7 @@ func runC07TextPos(c *Ctx) {
 	p := c.P
 	occ := map[string]int{}
 	for _, fn := range p.Funcs {
-		if !strings.HasSuffix(p.File(fn.Pos()), "/parse.go") {
+		if !strings.HasSuffix(p.unitFile(fn), "/parse.go") {
 			continue
 		}
 		eachInstr(fn, func(_ *ssa.BasicBlock, _ int, in ssa.Instruction) {
@@ -168,7 +168,7 @@ func runC17Whole(c *Ctx) {
 	p := c.P
 	n := 0
 	for _, fn := range p.Funcs {
-		if !strings.HasSuffix(p.File(fn.Pos()), "/glob.go") {
+		if !strings.HasSuffix(p.unitFile(fn), "/glob.go") {
 			continue
 		}
 		eachInstr(fn, func(b *ssa.BasicBlock, _ int, in ssa.Instruction) {
